@@ -48,9 +48,10 @@ def aSet {κ β : Type} [DecidableEq κ] : List (κ × β) → κ → β → Lis
   | [], k, v => [(k, v)]
   | (k', v') :: l, k, v => if k' = k then (k, v) :: l else (k', v') :: aSet l k v
 
+/-- `delete` / `lru.Remove`: no entry with key `k` remains -/
 def aDel {κ β : Type} [DecidableEq κ] : List (κ × β) → κ → List (κ × β)
   | [], _ => []
-  | (k', v') :: l, k => if k' = k then l else (k', v') :: aDel l k
+  | (k', v') :: l, k => if k' = k then aDel l k else (k', v') :: aDel l k
 
 /-! LRU cache: most recently used first -/
 
